@@ -26,6 +26,9 @@ def gen(rng, maxdepth=6):
                        # with_map(fn, error_fn): the error function swallows a failure and returns None
                        "efn": (k == "map" and rng.random() < 0.25),
                        "max_attempts": rng.randint(1, 3), "count": rng.randint(1, 2),
+                       # flat_map: the kind of future fn returns (plain / f_proxy / f_nocancel around it); a failing layer
+                       # either raises or returns an already-failed future of that kind
+                       "how": rng.choice(["plain", "plain", "proxy", "nocancel"]), "fail_by_future": rng.random() < 0.5,
                        # poll function: the call indices at which it raises (after it has been shown its descriptors)
                        "poll_raise": (rng.choice([[0], [1], [0, 2], [0, 1]]) if (k == "poll" and rng.random() < 0.3) else [])})
     nsub = rng.randint(1, 4)
@@ -63,7 +66,7 @@ def wire(p, s):
 
 def execute(p, chooser):
     from more_executors import Executors
-    from more_executors.futures import f_return
+    from more_executors.futures import f_return, f_return_error, f_proxy, f_nocancel
     obs = {"params": p, "res": {}, "calls": {}, "raised": {}, "fncalls": {}, "pollraise": []}
 
     def main():
@@ -78,12 +81,17 @@ def execute(p, chooser):
                     def fn(v):
                         s = v >> 60 if False else None
                         obs["fncalls"].setdefault(i, []).append(v)
+                        def dress(f):
+                            how = l.get("how", "plain")
+                            return f_proxy(f) if how == "proxy" else f_nocancel(f) if how == "nocancel" else f
                         if l["raises"]:
                             e = CE(2000 + i)
                             obs["raised"].setdefault("L%d" % i, []).append(e)
+                            if flat and l.get("fail_by_future"):
+                                return dress(f_return_error(e))
                             raise e
                         r = (-1 if v is None else v) * 16 + i       # None (a swallowed failure) counts as -1, as in Stack.v
-                        return f_return(r) if flat else r
+                        return dress(f_return(r)) if flat else r
                     return fn
                 if k == "map" and l.get("efn") and not l["raises"]:
                     ex = ex.with_map(mkfn(), error_fn=lambda e, i=i: obs["fncalls"].setdefault(i, []).append(e))
